@@ -1,7 +1,7 @@
 SPECIFICATION Spec
 CONSTANTS
   OPS = {"create1", "parse", "extractA", "extractB", "signrecA", "signrecB", "bootB", "bootcfg", "updateB", "signB", "parseyamlA", "parseyamlB",
-         "convertA", "convertB", "mpimerge", "cachemerge", "geninfo"}
+         "convertA", "convertB", "mpimerge", "cachemerge", "geninfo", "objskip", "objsign", "objsignB"}
   MAXLEN = 3
   EMIT = TRUE
 INVARIANT SameKeySameInputs
